@@ -333,6 +333,12 @@ pub struct Timestamp(u64);
 /// Tracks the last timestamp returned by [`Timestamp::now`] to ensure monotonicity.
 static LAST_TIMESTAMP: AtomicU64 = AtomicU64::new(0);
 
+/// Verification hook (only with `--cfg iroh_verif`): once set, [`Timestamp::now`] takes its
+/// wall-clock reading (microseconds since the UNIX epoch) from this function and only falls
+/// back to the system clock when it returns `None`.
+#[cfg(iroh_verif)]
+pub static VERIF_CLOCK: std::sync::OnceLock<fn() -> Option<u64>> = std::sync::OnceLock::new();
+
 impl Timestamp {
     /// Returns a strictly monotonic timestamp.
     ///
@@ -344,6 +350,8 @@ impl Timestamp {
             .duration_since(SystemTime::UNIX_EPOCH)
             .expect("system time before UNIX epoch")
             .as_micros() as u64;
+        #[cfg(iroh_verif)]
+        let micros = VERIF_CLOCK.get().and_then(|clock| clock()).unwrap_or(micros);
         // Ensure strictly monotonic: if the clock went backward or two calls
         // land in the same microsecond, we increment from the last value.
         let mut last = LAST_TIMESTAMP.load(Ordering::Relaxed);
